@@ -6,7 +6,8 @@ use serde_json::json;
 use crate::model;
 use crate::pipeline::{build_base, check_lossless, nodes_of_base, ColPay, Entry3, PayKind, SumPay, U16Pay};
 use crate::props::gcase::{gcase, GCase};
-use crate::runner::{CheckResult, Env, Job, Outcome, PropJob};
+use crate::runner::{guarded, CheckResult, EnumJob, Env, Job, JobReport, Outcome, PropJob};
+use crate::util::splitmix;
 
 pub const RULE: &str = "case = (read set built from a small genome over a 1..4 letter alphabet by recipes: substring / rc substring / SNP / tandem repeat / homopolymer / hairpin S+loop+rc(S) / duplicate / raw incl. shorter than K, labels), stranded flag, count threshold in {1,2,3,above-all}, entry point in {hash table, sorted slice + remove_censored_exts, bare k-mers}, optionally one model-side shard (pieces whose extensions leave the table), payload kind in {commutative (count,xor-hash,n), colour set with equality join, u16 saturating}; oracle = string-level k-mer table: every key in exactly one node at one offset, no foreign k-mer, every internal step recorded as an extension of both k-mers, payload = fold over exactly the node's k-mers. Non-trivial = (>=2 nodes or a multi-k-mer node) and the table has a repeat, palindrome, self/hairpin link or branch; distinct = distinct case hashes per (K type, payload kind).";
 pub const TECHNIQUE: &str = "seeded proptest over read sets x configurations against a string-level k-mer table model (validity predicate)";
@@ -65,9 +66,74 @@ fn build<K: Kmer + 'static>(name: &'static str, _env: &Env) -> Vec<Box<dyn Job>>
     ]
 }
 
+/// Unbranched paths longer than 65 535 bases (one very long node): a fixed handful of cases per type.
+fn long_node_job<K: Kmer + 'static>(name: &'static str) -> Box<dyn Job> {
+    fn make<K: Kmer>(seed: u64, delta: i64, entry: Entry3, stranded: bool) -> GCase {
+        let k = K::k();
+        let len = (65535i64 + k as i64 - 1 + delta) as usize;
+        let mut st = seed;
+        let mut r = 0u64;
+        let seq: Vec<u8> = (0..len)
+            .map(|j| {
+                if j % 32 == 0 {
+                    r = splitmix(&mut st);
+                }
+                ((r >> (2 * (j % 32))) & 3) as u8
+            })
+            .collect();
+        GCase {
+            rs: crate::gen::reads::ReadSet {
+                genome: Vec::new(),
+                recipes: vec![(crate::gen::reads::Recipe::Raw(seq), 0)],
+            },
+            stranded,
+            min_count: 1,
+            entry,
+            shards: 0,
+            shard_pick: 0,
+            aux: seed,
+        }
+    }
+    let variants: Vec<(i64, Entry3, bool)> = vec![
+        (-1, Entry3::Hash, false),
+        (0, Entry3::Hash, true),
+        (1, Entry3::NoExts, false),
+        (2, Entry3::SortedSlice, true),
+        (4465, Entry3::Hash, false),
+    ];
+    let v2 = variants.clone();
+    EnumJob {
+        name: format!("long_node/{}", name),
+        run: Box::new(move |env: &Env, rep: &mut JobReport| {
+            for (i, (delta, entry, stranded)) in variants.iter().enumerate() {
+                let seed = env.job_seed("long_node") ^ i as u64;
+                let c = make::<K>(seed, *delta, *entry, *stranded);
+                match guarded(|| check::<K, SumPay>(&c)) {
+                    Ok(o) => rep.pass(&Outcome::new(true).label(o.labels.contains(&"multi_kmer_node"), "node>65535_bases"), seed, || {
+                        serde_json::json!({"type": name, "read_length": 65535 + K::k() as i64 - 1 + delta, "entry": format!("{:?}", entry), "stranded": stranded})
+                    }),
+                    Err(m) => rep.fail(m, serde_json::json!({"seed": seed.to_string(), "variant": i})),
+                }
+            }
+        }),
+        replay: Box::new(move |case: &serde_json::Value| {
+            let c = case.get("case").unwrap_or(case);
+            let seed: u64 = c.get("seed").and_then(|v| v.as_str()).and_then(|s| s.parse().ok()).ok_or("no seed")?;
+            let i = c.get("variant").and_then(|v| v.as_u64()).ok_or("no variant")? as usize;
+            let (delta, entry, stranded) = v2[i % v2.len()];
+            let gc = make::<K>(seed, delta, entry, stranded);
+            Ok(guarded(|| check::<K, SumPay>(&gc)))
+        }),
+    }
+    .boxed()
+}
+
 #[cfg(not(fuzzing))]
 pub fn jobs(env: &Env) -> Vec<Box<dyn Job>> {
-    let mut out: Vec<Box<dyn Job>> = Vec::new();
+    let mut out: Vec<Box<dyn Job>> = vec![
+        long_node_job::<crate::ktypes::Kmer32>("Kmer32"),
+        long_node_job::<crate::ktypes::Kmer48>("Kmer48"),
+    ];
     crate::kmers_ge4!(build, out, env);
     out
 }
